@@ -533,14 +533,15 @@ class Lane:
         if died:
             self.record_death(seq, seqdesc)
             return None
-        if trouble and self.dm.alive() and vc.proc_idle(self.dm.pid, 2.0):
+        if trouble and self.dm.alive() and vc.proc_idle(self.dm.pid):
             # Not a slow machine: every client of this sequence has closed its socket, the daemon burns no CPU and all its
             # threads sleep, yet a request is unanswered / a session thread has not ended.  That session will never end.
             a = vc.status(self.dir, 10.0).active_clients()
             what = "exec" if trouble.startswith("exec:") or "post-sequence exec" in trouble else trouble.split(":")[0].split(" ")[0]
             _violation(self.ctx, "session-stuck|daemon-idle|" + what,
-                       "after the sequence [%s]: %s -- while the daemon is idle (no CPU time consumed over 2 s, all threads sleeping) "
-                       "and reports active_clients=%s although every client connection of the sequence is closed" % (seqdesc, trouble, a),
+                       "after the sequence [%s]: %s -- while the daemon is idle (neither it nor its co-processes consumed CPU time over 6 s, all threads sleeping) "
+                       "and reports active_clients=%s although every client connection of the sequence is closed\n%s"
+                       % (seqdesc, trouble, a, vc.proc_report(self.dm.pid)),
                        {"sequence.txt": seqdesc + "\n"})
             with _VLOCK:
                 self.st["restarts"] += 1
